@@ -121,7 +121,7 @@ class Check(PropertyCheck):
     # ------------------------------------------------------------------
     def programs(self):
         rng = self.rng
-        n = 40 if self.tier == "quick" else 900
+        n = 32 if self.tier == "quick" else 600
         progs = [(name, [sp, sp]) for name, sp in FIXED]
         corpus = VERIF / "corpus" / "C20.jsonl"
         if corpus.exists():
